@@ -47,14 +47,6 @@ theorem cycleTake_one {α : Type} (v : α) : ∀ n, cycleTake n [v] = List.repli
     | succ n ih => exact ⟨by simp [cycAux, ih.1, List.replicate_succ], by simp [cycAux, ih.1, List.replicate_succ]⟩
   intro n; exact (aux n).2
 
-/-- Reference semantics of `Where` on rank ≤ 1 integer tensors: broadcast the three operands to
-the common length with `cycleTake` (see `cycleTake_full` / `cycleTake_one`) and select with the
-kernel's test `c ≠ 0`. -/
-def cwhere (c x y : List Int) : List Int :=
-  let n := Nat.max (Nat.max c.length x.length) y.length
-  (List.zip (cycleTake n c) (List.zip (cycleTake n x) (cycleTake n y))).map
-    fun (t : Int × Int × Int) => if t.1 ≠ 0 then t.2.1 else t.2.2
-
 theorem where_zip3 (σ : Env) : ∀ (cs xs ys : List Sym) (vc vx vy : List Int) (out : List Sym),
     evalList σ cs = some vc → evalList σ xs = some vx → evalList σ ys = some vy →
     mapO (fun (t : Sym × Sym × Sym) => whereElem (fun v => v != 0) t.1 t.2.1 t.2.2)
